@@ -3,7 +3,7 @@
 from __future__ import annotations
 
 import ast
-from typing import Dict, List, Optional
+from typing import Dict, List, Optional, Tuple
 
 from ..core import astutil as A
 from ..core.cfg import Cond
@@ -97,8 +97,9 @@ def run(prog, chk):
         "cyclic component references raise InvalidFontData which no handler swallows (R02.6)",
         "glyf is assembled in increasing component depth; coordinate rounding is otRound unless roundCoordinates is off (R02.7/8)",
         "TTF options reach their consumers by name (R02.9)",
+        "nested component transformations are composed as outer o inner with fontTools' Transform algebra on every path of _flattenComponent; no Transform is assembled from hand-computed components (R02.10)",
     ]
-    chk.not_decided += ["the cu2qu error bound itself", "point-for-point equality", "transform composition in component flattening (algebra)", "maxp counts (fontTools recalc)"]
+    chk.not_decided += ["the cu2qu error bound itself", "point-for-point equality", "maxp counts (fontTools recalc)"]
     r021(prog, chk)
     r022(prog, chk)
     r023(prog, chk)
@@ -106,6 +107,7 @@ def run(prog, chk):
     r026(prog, chk)
     r027(prog, chk)
     r029(prog, chk)
+    r0210(prog, chk)
 
 
 def _append_of(prog, fi, ctor_name):
@@ -427,7 +429,195 @@ def r029(prog, chk):
     chk.minimum("R02.9", 25)
 
 
+# ----------------------------------------------------------------------------- R02.10
+TRANSFORM = "fontTools.misc.transform.Transform"
+FIELDS6 = ["xx", "xy", "yx", "yy", "dx", "dy"]
+
+
+def _is_transform_ctor(prog, fi, e) -> bool:
+    return isinstance(e, ast.Call) and prog.is_call_to(fi, e, TRANSFORM)
+
+
+def _chain(e):
+    """x.m1(a).m2(b) -> (x, [(m1, call1), (m2, call2)])"""
+    ops = []
+    while isinstance(e, ast.Call) and isinstance(e.func, ast.Attribute):
+        ops.append((e.func.attr, e))
+        e = e.func.value
+    return e, list(reversed(ops))
+
+
+def _field_of(e, roles):
+    """X.<field> with X a role-carrying name -> (role, field)"""
+    if isinstance(e, ast.Attribute) and isinstance(e.value, ast.Name) and e.value.id in roles:
+        return roles[e.value.id], e.attr
+    return None
+
+
+def _composition_shape(prog, fi, e, roles, is_outer) -> Tuple[bool, str]:
+    """e is OUTER o INNER written with fontTools' Transform algebra:
+       OUTER.transform(INNER)  |  OUTER.translate(I.dx, I.dy).transform((I.xx, I.xy, I.yx, I.yy, 0, 0))"""
+    steps = []
+    cur = e
+    # inline straight-line re-assignments (t = t.translate(..); t = t.transform(..))
+    for _ in range(8):
+        base, ops = _chain(cur)
+        steps = ops + steps
+        if isinstance(base, ast.Name) and base.id not in roles:
+            ds = prog.reaching(fi, base.id, base)
+            if len(ds) == 1 and ds[0].element()[1] is None and ds[0].element()[0] is not None:
+                cur = ds[0].element()[0]
+                continue
+        break
+    if not is_outer(base):
+        return False, f"the composition does not start from the outer component's transformation (`{T(base, 50)}`)"
+    names = [m for m, c in steps]
+    if names == ["transform"]:
+        a = steps[0][1].args
+        ok = len(a) == 1 and isinstance(a[0], ast.Name) and roles.get(a[0].id) == "INNER"
+        return ok, "OUTER.transform(INNER)" if ok else f"transform() is not applied to the nested transformation (`{T(steps[0][1], 60)}`)"
+    if names == ["translate", "transform"]:
+        ta = steps[0][1].args
+        ok1 = len(ta) == 2 and [_field_of(x, roles) for x in ta] == [("INNER", "dx"), ("INNER", "dy")]
+        ma = steps[1][1].args
+        ok2 = (len(ma) == 1 and isinstance(ma[0], ast.Tuple) and len(ma[0].elts) == 6
+               and [_field_of(x, roles) for x in ma[0].elts[:4]] == [("INNER", f) for f in FIELDS6[:4]]
+               and all(isinstance(x, ast.Constant) and x.value == 0 for x in ma[0].elts[4:]))
+        if not ok1:
+            return False, f"translate() does not take the nested offset (dx, dy): `{T(steps[0][1], 60)}`"
+        if not ok2:
+            return False, f"transform() does not take the nested 2x2 (xx, xy, yx, yy, 0, 0): `{T(steps[1][1], 70)}`"
+        return True, "OUTER.translate(I.dx, I.dy).transform((I.xx, I.xy, I.yx, I.yy, 0, 0))"
+    return False, f"unrecognised composition `{T(e, 70)}` (steps {names})"
+
+
+def r0210(prog, chk):
+    ix = prog.ix
+    # (a) Transform objects are never assembled from hand-computed components
+    n = 0
+    for fi in ix.functions.values():
+        for c in A.body_nodes(fi.node):
+            if _is_transform_ctor(prog, fi, c):
+                n += 1
+                ok = not c.keywords and (not c.args or (len(c.args) == 1 and isinstance(c.args[0], ast.Starred)))
+                chk.ob("R02.10", f"{fi.short}|{A.keytext(fi.node, c)}", ok, where(fi, c), detail="Transform(*<6-tuple>) / Transform()",
+                       message=f"{fi.short} assembles a Transform from hand-computed components (`{T(c, 70)}`): nested component transforms must be "
+                               f"composed with fontTools' Transform algebra (an offset has to be mapped through the outer 2x2)")
+    need(n >= 5, "Transform constructions not found")
+    # (b) _flattenComponent composes outer o inner for every nested component
+    fc = ix.get_func("ufo2ft.filters.flattenComponents:_flattenComponent")
+    ps = fc.params()
+    need(len(ps) >= 2, f"cannot interpret {fc.short}")
+    comp = ps[1]
+
+    def is_outer_in(fi, outer_names):
+        def f(b):
+            if isinstance(b, ast.Name) and b.id in outer_names:
+                return True
+            return (fi is fc and _is_transform_ctor(prog, fc, b) and len(b.args) == 1 and isinstance(b.args[0], ast.Starred)
+                    and T(b.args[0].value) == f"{comp}.transformation")
+        return f
+
+    # the inner transformation: loop variable unpacked from the recursive call's result
+    inner = set()
+    for loop in [x for x in A.body_nodes(fc.node) if isinstance(x, ast.For)]:
+        it = loop.iter
+        if isinstance(it, ast.Call) and A.callee_name(it) == "enumerate" and it.args:
+            it = it.args[0]
+        it = _expand(prog, fc, it)
+        if isinstance(it, ast.Call) and A.callee_name(it) == fc.node.name:
+            tn = A.target_names(loop.target)
+            if tn:
+                inner.add(tn[-1])
+    need(inner, f"cannot interpret {fc.short}: no loop over the recursive result")
+    roles = {x: "INNER" for x in inner}
+    emitted = []
+    for x in A.body_nodes(fc.node):
+        if isinstance(x, ast.Tuple) and len(x.elts) == 2 and isinstance(x.ctx, ast.Load):
+            par = ix.parent(x)
+            if isinstance(par, ast.Assign) and par.value is x and isinstance(par.targets[0], ast.Subscript):
+                emitted.append(x)
+            elif isinstance(par, ast.Call) and A.callee_name(par) in ("append",) and x in par.args:
+                emitted.append(x)
+            elif isinstance(par, ast.List) and isinstance(ix.parent(par), ast.Return):
+                emitted.append(x)
+    need(len(emitted) >= 2, f"cannot interpret {fc.short}: emitted (name, transform) tuples")
+    for tup in emitted:
+        e = tup.elts[1]
+        nested_ctx = any(isinstance(a, ast.For) for a in ix.ancestors(tup))
+        if not nested_ctx:
+            v = _expand(prog, fc, e)
+            ok = is_outer_in(fc, set())(v)
+            chk.ob("R02.10", f"{fc.short}|leaf component keeps its own transformation", ok, where(fc, tup), detail=T(v, 60),
+                   message=f"{fc.short}: a component that is not nested is not emitted with its own transformation (`{T(v, 60)}`)")
+            continue
+        v = e
+        if isinstance(v, ast.Name) and v.id not in roles:
+            ds = prog.reaching(fc, v.id, v)
+            if len(ds) == 1 and ds[0].element()[1] is None and isinstance(ds[0].element()[0], ast.Call) and not isinstance(ds[0].element()[0].func, ast.Attribute):
+                v = ds[0].element()[0]
+        if isinstance(v, ast.Call) and isinstance(v.func, ast.Name) and not _is_transform_ctor(prog, fc, v):
+            # composition moved into a helper: bind roles to its parameters and check every return
+            ts, how = prog.resolve_callee(fc, v.func)
+            helper = [t for t in ts if isinstance(t, FuncInfo)]
+            if len(helper) != 1:
+                chk.ob("R02.10", f"{fc.short}|nested transformation composed", False, where(fc, tup), message=f"cannot resolve `{T(v, 50)}`")
+                continue
+            h = helper[0]
+            hroles, outers = {}, set()
+            for p, a in zip(h.params(), v.args):
+                av = _expand(prog, fc, a)
+                if isinstance(a, ast.Name) and a.id in roles:
+                    hroles[p] = "INNER"
+                elif is_outer_in(fc, set())(av):
+                    outers.add(p)
+            for r in A.returns_of(h.node):
+                if isinstance(r.value, ast.Name) and hroles.get(r.value.id) == "INNER":
+                    # identity fast path: only when OUTER is the identity
+                    cs = conds(prog, h, r)
+                    ok = any(c.polarity is True and isinstance(c.test, ast.Compare) and len(c.test.ops) == 1 and isinstance(c.test.ops[0], ast.Eq)
+                             and isinstance(c.test.left, ast.Name) and c.test.left.id in outers and T(c.test.comparators[0]) == "Identity" for c in cs)
+                    why = "INNER returned only when OUTER == Identity"
+                else:
+                    ok, why = _composition_shape(prog, h, r.value, hroles, is_outer_in(h, outers))
+                chk.ob("R02.10", f"{h.short}|{A.keytext(h.node, r)}", ok, where(h, r), detail=why,
+                       message=f"{h.short} (used by {fc.short} to place nested components): {why}")
+            continue
+        ok, why = _composition_shape(prog, fc, e, roles, is_outer_in(fc, set()))
+        chk.ob("R02.10", f"{fc.short}|nested transformation = OUTER o INNER", ok, where(fc, tup), detail=why,
+               message=f"{fc.short}: the transformation of a flattened nested component is not outer o inner: {why}")
+    # every emitted tuple reaches the pen: _flattenGlyphComponents adds each tuple unchanged
+    fg = ix.get_func("ufo2ft.filters.flattenComponents:_flattenGlyphComponents")
+    adds = [c for c in calls_named(fg, "addComponent")]
+    ok = bool(adds) and all(len(c.args) == 1 and isinstance(c.args[0], ast.Starred) for c in adds)
+    chk.ob("R02.10", f"{fg.short}|flattened tuples are added unchanged", ok, where(fg), detail="pen.addComponent(*flattened_tuple)",
+           message=f"{fg.short} no longer adds the flattened (baseGlyph, transformation) tuples as they are")
+    chk.minimum("R02.10", 9)
+
+
 MUTANTS = [
+    M("composition moved into a helper with a wrong only-shifted fast path (seeded C02a)", "ufo2ft/filters/flattenComponents.py", "_flattenComponent",
+      "flat_tr = Transform(*component.transformation)\nflat_tr = flat_tr.translate(tr.dx, tr.dy)\nflat_tr = flat_tr.transform((tr.xx, tr.xy, tr.yx, tr.yy, 0, 0))",
+      "flat_tr = _shiftOnly(Transform(*component.transformation), tr)", rule="R02.10"),
+    M("nested offset added instead of mapped through the outer 2x2 (hand-built Transform)", "ufo2ft/filters/flattenComponents.py", "_flattenComponent",
+      "flat_tr = flat_tr.translate(tr.dx, tr.dy)", "flat_tr = Transform(flat_tr.xx, flat_tr.xy, flat_tr.yx, flat_tr.yy, flat_tr.dx + tr.dx, flat_tr.dy + tr.dy)", rule="R02.10"),
+    M("nested offset axes swapped", "ufo2ft/filters/flattenComponents.py", "_flattenComponent",
+      "flat_tr.translate(tr.dx, tr.dy)", "flat_tr.translate(tr.dy, tr.dx)", rule="R02.10"),
+    M("nested 2x2 transposed", "ufo2ft/filters/flattenComponents.py", "_flattenComponent",
+      "(tr.xx, tr.xy, tr.yx, tr.yy, 0, 0)", "(tr.xx, tr.yx, tr.xy, tr.yy, 0, 0)", rule="R02.10"),
+    M("composition starts from the nested component instead of the outer one", "ufo2ft/filters/flattenComponents.py", "_flattenComponent",
+      "flat_tr = Transform(*component.transformation)", "flat_tr = Transform(*nested.transformation)", rule="R02.10"),
+    M("2x2 applied before the offset", "ufo2ft/filters/flattenComponents.py", "_flattenComponent",
+      "flat_tr = flat_tr.translate(tr.dx, tr.dy)\nflat_tr = flat_tr.transform((tr.xx, tr.xy, tr.yx, tr.yy, 0, 0))",
+      "flat_tr = flat_tr.transform((tr.xx, tr.xy, tr.yx, tr.yy, 0, 0))\nflat_tr = flat_tr.translate(tr.dx, tr.dy)", rule="R02.10"),
+    M("nested offset dropped", "ufo2ft/filters/flattenComponents.py", "_flattenComponent",
+      "flat_tr = flat_tr.translate(tr.dx, tr.dy)", "pass", rule="R02.10"),
+    M("composition written as one transform() call", "ufo2ft/filters/flattenComponents.py", "_flattenComponent",
+      "flat_tr = flat_tr.translate(tr.dx, tr.dy)\nflat_tr = flat_tr.transform((tr.xx, tr.xy, tr.yx, tr.yy, 0, 0))",
+      "flat_tr = flat_tr.transform(tr)", kind="equiv"),
+    M("composition written as a single chained expression", "ufo2ft/filters/flattenComponents.py", "_flattenComponent",
+      "flat_tr = flat_tr.translate(tr.dx, tr.dy)\nflat_tr = flat_tr.transform((tr.xx, tr.xy, tr.yx, tr.yy, 0, 0))",
+      "flat_tr = flat_tr.translate(tr.dx, tr.dy).transform((tr.xx, tr.xy, tr.yx, tr.yy, 0, 0))", kind="equiv"),
     M("mixed glyphs decomposed only when flattening", "ufo2ft/preProcessor.py", "TTFPreProcessor.initDefaultFilters",
       "filters.append(DecomposeComponentsFilter(include=lambda g: len(g)))\nif flattenComponents:\n    from ufo2ft.filters.flattenComponents import FlattenComponentsFilter\n    filters.append(FlattenComponentsFilter())",
       "if flattenComponents:\n    from ufo2ft.filters.flattenComponents import FlattenComponentsFilter\n    filters.append(DecomposeComponentsFilter(include=lambda g: len(g)))\n    filters.append(FlattenComponentsFilter())",
